@@ -306,3 +306,19 @@ POSITIONS = [0, 0, 0, 1, 2, 3, 4, 5, 6, 7, 8, 9, 12, 15, 16, 4294967296, 4294967
 
 def rand_pos(rng):
     return rng.choice(POSITIONS)
+
+
+def wide_values():
+    """many SIBLING containers (counter leaks across siblings show only beyond 32 / 64 of them)"""
+    out = []
+    for n in (31, 32, 33, 34, 40, 65, 70):
+        st = ('r', [('y', 1), ('s', b"x")])
+        out.append(('a', vsig(st), [st] * n))                                   # array of n structs
+        out.append(('a', ('a', 'y'), [('a', 'y', [('y', 2)])] * n))             # array of n arrays
+        out.append(('a', 'v', [('v', ('u', 3))] * n))                           # array of n variants
+        out.append(('r', [('r', [('y', 4)])] * n))                              # struct of n structs
+        out.append(('r', [('a', 'q', [])] * n))                                 # struct of n empty arrays
+        out.append(('e', 'u', vsig(st), [(('u', i), st) for i in range(n)]))    # dict with n struct values
+        out.append(('e', 'u', 'v', [(('u', i), ('v', ('a', 'y', []))) for i in range(n)]))
+        out.append(('a', ('r', [('a', ('r', ['y']))]), [('r', [('a', ('r', ['y']), [('r', [('y', 5)])] * 3)])] * n))
+    return out
